@@ -390,9 +390,9 @@ class Parser:
         for node in nodes.values():
             line = lines[node.lineno]
             if not line.isascii():
-                node.col_offset = len(line[: node.col_offset].encode())
+                node.col_offset = len(line[: node.col_offset].encode("utf-8", "surrogatepass"))
             if node.end_lineno and getattr(node, "end_col_offset", None) is not None and not lines[node.end_lineno].isascii():
-                node.end_col_offset = len(lines[node.end_lineno][: node.end_col_offset].encode())
+                node.end_col_offset = len(lines[node.end_lineno][: node.end_col_offset].encode("utf-8", "surrogatepass"))
         return tree
 
     def _parse(self, rule: str, call_invalid_rules: bool = False) -> ast.AST | Any | None:
@@ -526,6 +526,9 @@ class Parser:
         except SyntaxError as e:
             # e.g. a truncated escape: report it at the literal in the source, not at the literal's own line 1
             self.raise_syntax_error_known_location(e.msg, token)
+        except UnicodeEncodeError as e:
+            # a lone surrogate in the source text: it cannot be part of a program
+            self.raise_syntax_error_known_location(f"(unicode error) {e}", token)
 
     def _concat_strings_in_constant(self, parts: list[TokenInfo]) -> ast.Constant:
         s = self._string_value(parts[0])
